@@ -46,6 +46,17 @@ __all__ = [
 ]
 
 
+def _condition(gate):
+    """
+    The classical condition of ``gate`` as keyword arguments for the gate
+    that replaces it (the SWAPs that move the qubits are unconditional).
+    """
+    return {
+        "classical_controls": gate.classical_controls,
+        "classical_control_value": gate.classical_control_value,
+    }
+
+
 class QubitCircuit:
     """
     Representation of a quantum program/algorithm, maintaining a sequence
@@ -758,11 +769,21 @@ class QubitCircuit:
                         # to each other, provided |control-target| is even.
                         if end == gate.controls[0]:
                             temp.gates.append(
-                                Gate(gate.name, targets=[i], controls=[i + 1])
+                                Gate(
+                                    gate.name,
+                                    targets=[i],
+                                    controls=[i + 1],
+                                    **_condition(gate),
+                                )
                             )
                         else:
                             temp.gates.append(
-                                Gate(gate.name, targets=[i + 1], controls=[i])
+                                Gate(
+                                    gate.name,
+                                    targets=[i + 1],
+                                    controls=[i],
+                                    **_condition(gate),
+                                )
                             )
                     elif (
                         start + end - i - i == 2 and (end - start + 1) % 2 == 1
@@ -778,6 +799,7 @@ class QubitCircuit:
                                     gate.name,
                                     targets=[i + 1],
                                     controls=[i + 2],
+                                    **_condition(gate),
                                 )
                             )
                         else:
@@ -786,6 +808,7 @@ class QubitCircuit:
                                     gate.name,
                                     targets=[i + 2],
                                     controls=[i + 1],
+                                    **_condition(gate),
                                 )
                             )
                         temp.gates.append(Gate("SWAP", targets=[i, i + 1]))
@@ -813,6 +836,7 @@ class QubitCircuit:
                                 gate.name,
                                 targets=[i, i + 1],
                                 arg_value=gate.arg_value,
+                                **_condition(gate),
                             )
                         )
                     elif (start + end - i - i) == 2 and (
@@ -824,6 +848,7 @@ class QubitCircuit:
                                 gate.name,
                                 targets=[i + 1, i + 2],
                                 arg_value=gate.arg_value,
+                                **_condition(gate),
                             )
                         )
                         temp.gates.append(Gate("SWAP", targets=[i, i + 1]))
